@@ -180,6 +180,10 @@ def prop(case):
                 line.set(name, None)
         except Exception as e:
             raise Violation("pre-step", "set/delete of a valid value raised %s: %s" % (type(e).__name__, str(e)[:200]), type(e).__name__)
+    try:
+        line.validate()  # (a line that was validated before is validated again after the assignment)
+    except Exception as e:
+        raise Violation("carrier-refused", "validate() of the valid line %r raised %s: %s" % (text, type(e).__name__, str(e)[:200]), type(e).__name__)
     dt = declared or expected_default(spec)
     verdict = classify(spec, dt) if dt else None
     if verdict is None:
@@ -301,18 +305,20 @@ def prop(case):
             raise Violation("invalid-not-reported-at-set", "%s: the assignment at vlevel 3 raised nothing" % ctx, dt)
         if raised_at_set is None:
             # reported by explicit validation at every level
-            rep = False
+            rep = []
             try:
                 line.validate_field(name)
             except Exception:
-                rep = True
-            if not rep:
-                try:
-                    line.validate()
-                except Exception:
-                    rep = True
+                rep.append("validate_field")
+            try:
+                line.validate()
+            except Exception:
+                rep.append("validate")
             if not rep:
                 raise Violation("invalid-not-reported", "%s: neither validate_field nor validate reports the value" % ctx, dt)
+            if len(rep) < 2:
+                raise Violation("invalid-not-reported", "%s: only %s() reports the value, %s() raises nothing" % (
+                    ctx, rep[0], "validate" if rep[0] == "validate_field" else "validate_field"), "%s/one-of-two" % dt)
             if vlevel >= 2 and not reported_at_write(line, name):
                 raise Violation("invalid-written", "%s: written without any report at vlevel %d: %r" % (ctx, vlevel, str(line)), dt)
             if vlevel < 2:
